@@ -64,7 +64,7 @@ def literal_graphs(maxlen, variant=0, classes=None):
 
 def typed_literal_graphs():
     vals = [("1", "integer"), ("-5", "integer"), ("1.5", "decimal"), ("100.0", "decimal"), ("1.0E0", "double"), ("1.2345678901234567E8", "double"), ("1.0E-7", "double"),
-            ("INF", "double"), ("true", "boolean"), ("false", "boolean"), ("2020-01-01", "date"), ("2020-01-01T00:00:00Z", "dateTime"), ("P1D", "duration"),
+            ("INF", "double"), ("-INF", "double"), ("NaN", "double"), ("NaN", "float"), ("INF", "float"), ("true", "boolean"), ("false", "boolean"), ("2020-01-01", "date"), ("2020-01-01T00:00:00Z", "dateTime"), ("P1D", "duration"),
             ("abc", "string"), ("", "string"), ("AQID", "base64Binary"), ("0A", "hexBinary"), ("1", "float"), ("5", "byte"), ("http://x.example/", "anyURI")]
     for i, (lex, dt) in enumerate(vals):
         yield ("typed:%s:%s" % (dt, lex), [[S1, P1, L(lex, dt=XSD + dt)], [S1, P2, L(lex)]], True)
